@@ -5,6 +5,7 @@ package plugin
 
 import (
 	"encoding/json"
+	"fmt"
 	"time"
 )
 
@@ -44,19 +45,33 @@ func parseJSON(input []byte) (*logEntry, error) {
 		return nil, err
 	}
 
-	// Parse hclog-specific objects
+	// Parse hclog-specific objects. A value of the wrong type means the line
+	// is not hclog output: report an error so that the caller logs the line
+	// as plain text instead of panicking on the type assertion.
 	if v, ok := raw["@message"]; ok {
-		entry.Message = v.(string)
+		s, ok := v.(string)
+		if !ok {
+			return nil, fmt.Errorf("@message is not a string: %T", v)
+		}
+		entry.Message = s
 		delete(raw, "@message")
 	}
 
 	if v, ok := raw["@level"]; ok {
-		entry.Level = v.(string)
+		s, ok := v.(string)
+		if !ok {
+			return nil, fmt.Errorf("@level is not a string: %T", v)
+		}
+		entry.Level = s
 		delete(raw, "@level")
 	}
 
 	if v, ok := raw["@timestamp"]; ok {
-		t, err := time.Parse("2006-01-02T15:04:05.000000Z07:00", v.(string))
+		s, ok := v.(string)
+		if !ok {
+			return nil, fmt.Errorf("@timestamp is not a string: %T", v)
+		}
+		t, err := time.Parse("2006-01-02T15:04:05.000000Z07:00", s)
 		if err != nil {
 			return nil, err
 		}
